@@ -15,6 +15,9 @@ import (
 )
 
 // case ids of this package start here (one runner evidence table for all packages)
+// directory of this package inside the repository (race signatures are made relative to the repository root)
+const vC18PkgDir = "monitor/metrics"
+
 const vC18IDBase = 300
 
 var vC18Plan = []vC18Scen{
